@@ -16,25 +16,36 @@ every run (harness c08).
 
 What holds and what does not, clause by clause (details at each theorem). Two defects of the pinned code were repaired
 in /repo (a61f1aeb: the reload path uses the same confirmsRequired; db1b9b14: updateLIB ignores a lower candidate) and the
-model follows the repaired code; two are recorded as known findings and stay visible here as proved negations.
+model follows the repaired code; three are recorded as known findings and stay visible here as proved negations.
 
  * veto rules                      — `veto_below_lib`: exact, for the LIB the Status object currently holds.
                                      KNOWN C08-restart-lazy-load-veto-gap: `restart_forgets_lib` — after a restart that LIB is 0
                                      until the first Update (witness `restart_veto_gap_witness`).
  * > 2/3 distinct producers        — `quorum_more_than_two_thirds`, `libIndex_leaves_quorum` (formulas), `reload_same_quorum`,
                                      `prelib_quorum` (a pre-LIB needs `q` covering window blocks, pairwise distinct producers
-                                     under honest ranges), `window_invariant_history` (every history, any producer count).
+                                     under honest ranges), `window_invariant_history` (every history, any producer count);
+                                     `calcLIB_order_statistic` (the LIB is the rank-(m−1)/3 pre-LIB of the m producers seen: at least
+                                     ⌊2m/3⌋+1 of them are at or above it), `calcLIB_order_independent`, `calcLIB_choice_exact`,
+                                     `calcLIB_hash_determined` (what depends on Go's map order: only WHICH equal-numbered entry),
+                                     `calcLIB_monotone_in_entries`, `lib_vouched_by_seen_quorum`, `prpsd_one_entry_per_producer`.
  * LIB never decreases             — `lib_monotone` (every history of stores/Updates/connects/swaps on a loaded Status),
                                      `lib_monotone_across_restart` (the first Update after a restart continues from the saved LIB).
  * LIB on the main chain           — KNOWN C08-lib-from-stale-entry-of-abandoned-branch: FALSE (`lib_on_chain_false`);
-                                     `lib_on_chain_partial`: preserved by the connect branch for any predicate the window and the
-                                     proposed map satisfy.
- * restart = recompute             — `restart_equal_partial` (LIB, lpb, the proposed map overwritten by the replay, the replayed
-                                     window); `restart_equal_false` (the window itself is not the one the node had).
- * two correct nodes               — `quorum_intersect` (counting), `agreement_same_height`, `agreement_partial`
-                                     (under the extra hypothesis H); the full statement is NOT proved (comment at the end).
+                                     `lib_on_chain_partial` (connect branch, any predicate), `lib_on_chain_step` /
+                                     `lib_on_chain_history` (TRUE for every history without reorganisation, restarts included),
+                                     `rollback_branch_localised` (the rollback branch can leave only KEPT proposed entries off the chain).
+ * restart = recompute             — `restart_exact` (every history: Lib, LpbNo restored; confirmsRequired, genesis, self constant;
+                                     window and proposed map recomputed, lookup by lookup), `restart_equal_partial`.
+ * two correct nodes               — KNOWN C08-conflicting-libs-honest-switch-below-confirmed: the full statement is FALSE, even with
+                                     NO misbehaving producer (`agreement_false_honest_witness`). Proved: `quorum_intersect`,
+                                     `agreement_same_height`, `agreement_partial` (conditional on `StaysOnConfirmed`, which honest
+                                     producers do NOT guarantee), `honest_no_double_confirm`, `ranges_disjoint_of_production_order`,
+                                     `factory_ranges_disjoint`, `tip_never_decreases`; observation `lpb_regress_witness`.
 -/
 import Aergo.Lemmas.LibInv
+import Aergo.Lemmas.LibOrder
+import Aergo.Lemmas.LibChain
+import Aergo.Lemmas.LibRestart
 import Mathlib.Data.Finset.Card
 
 namespace Aergo.Props.C08
@@ -215,9 +226,10 @@ theorem lib_on_chain_false :
     n.ls.lib.hash = "a1" ∧ n.ls.lib.no = 1 ∧ hashByNo n 1 = some "e1" := by
   decide +kernel
 
-/-- The last clause read literally ("restored = the status the node had") is FALSE: one block connected, restart — the running status
-has the block in its confirms window, the restored one has an empty window (`load` returns early when begin = end). -/
-theorem restart_equal_false :
+/-- (was the theorem `restart_equal_false`; subsumed by `restart_exact`, which states that the window is the REPLAYED one, and
+kept as a test.) The last clause read literally ("restored = the status the node had") is false: one block connected, restart — the
+running status has the block in its confirms window, the restored one has an empty window (`load` returns early when begin = end). -/
+example :
     let n := (newNode "p0" ps4).run (mainBlk b1)
     n.ls.confirms.length = 1 ∧ (statusLoad (restart n)).ls.confirms.length = 0 := by
   decide +kernel
@@ -354,9 +366,8 @@ theorem window_invariant_history (k : Nat) (self : String) (gbps : List String)
 
 /-! ## 4. LIB on the main chain; LIB monotone — what the connect branch does guarantee -/
 
-/-- every block the status refers to satisfies `P` (think: "is on the node's main chain"). -/
-def AllP (P : BI → Prop) (ls : LS) : Prop :=
-  (∀ kv ∈ ls.prpsd, P kv.2.plib) ∧ (∀ c ∈ ls.confirms, P c.bi) ∧ P ls.lib ∧ P ls.genesis
+/-! `AllP P ls` (Aergo/Lemmas/LibChain.lean): every block the status refers to — pre-LIB entries, window, LIB, genesis —
+satisfies `P` (think: "is on the node's main chain"). -/
 
 /-- **lib_on_chain_partial.** The connect branch (`addConfirmInfo`, `update`, `updateLIB`, `gc`) keeps every block the
 status refers to inside any predicate `P` that holds for the new block: in particular a LIB it selects satisfies `P`. With
@@ -369,78 +380,9 @@ theorem lib_on_chain_partial (P : BI → Prop) (ls : LS) (b : Blk) (hint : Strin
                 | some l => if l.no < (update (addConfirmInfo ls b) hint).1.lib.no then (update (addConfirmInfo ls b) hint).1
                             else { (update (addConfirmInfo ls b) hint).1 with lib := l }
                 | none => (update (addConfirmInfo ls b) hint).1) bps) := by
-  obtain ⟨hp, hc, hl, hg⟩ := h
-  -- after addConfirmInfo
-  have ha : AllP P (addConfirmInfo ls b) := by
-    unfold addConfirmInfo
-    split
-    · exact ⟨hp, hc, hl, hg⟩
-    · refine ⟨?_, ?_, hl, hg⟩
-      · intro kv hkv
-        simp only at hkv
-        split at hkv
-        · exact hp kv hkv
-        · rcases mem_setP hkv with e | e
-          · rw [e]; exact hg
-          · exact hp kv e
-      · intro c hcm
-        rcases List.mem_cons.mp hcm with e | e
-        · rw [e]; exact hb
-        · exact hc c e
-  generalize addConfirmInfo ls b = s at ha ⊢
-  obtain ⟨sp, sc, sl, sg⟩ := ha
-  -- after update
-  have hu : AllP P (update s hint).1 ∧ (∀ l, (update s hint).2 = some l → P l) := by
-    unfold update
-    cases hcs : s.confirms with
-    | nil => exact ⟨⟨sp, by rw [hcs] at sc; simpa [hcs] using sc, sl, sg⟩, by simp⟩
-    | cons last rest =>
-      obtain ⟨w1, w2⟩ := walk_bis last.bi (last :: rest)
-      simp only
-      cases hw : (walk last.bi (last :: rest)).2 with
-      | none =>
-        refine ⟨⟨sp, ?_, sl, sg⟩, by simp⟩
-        intro c hcm
-        obtain ⟨c0, m, e⟩ := w1 c hcm
-        rw [e]; exact sc c0 (by rw [hcs]; exact m)
-      | some confirmed =>
-        obtain ⟨c0, m, e⟩ := w2 confirmed hw
-        have hconf : P confirmed := by rw [e]; exact sc c0 (by rw [hcs]; exact m)
-        have hpr : ∀ kv ∈ setP last.bp ⟨confirmed, last.bi⟩ s.prpsd, P kv.2.plib := by
-          intro kv hkv
-          rcases mem_setP hkv with e | e
-          · rw [e]; exact hconf
-          · exact sp kv e
-        refine ⟨⟨hpr, ?_, sl, sg⟩, ?_⟩
-        · intro c hcm
-          obtain ⟨c0, m, e⟩ := w1 c hcm
-          rw [e]; exact sc c0 (by rw [hcs]; exact m)
-        · intro l hl'
-          obtain ⟨kv, m, e⟩ := calcLIB_mem _ _ _ hl'
-          rw [← e]; exact hpr kv m
-  obtain ⟨⟨up, uc, ul, ug⟩, hlib⟩ := hu
-  refine ⟨hlib, ?_⟩
-  have hgc : ∀ t : LS, AllP P t → AllP P (gc t bps) := by
-    intro t ⟨tp, tc, tl, tg⟩
-    unfold gc
-    refine ⟨?_, ?_, tl, tg⟩
-    · intro kv hkv
-      simp only at hkv
-      split at hkv
-      · exact tp kv hkv
-      · exact tp kv (List.mem_filter.mp hkv).1
-    · intro c hcm
-      simp only at hcm
-      obtain ⟨tt, ht⟩ := dropOldLe_prefix t.lib.no t.confirms
-      have : c ∈ dropOldLe t.lib.no t.confirms := List.mem_of_mem_take hcm
-      exact tc c (by rw [ht]; exact List.mem_append_left _ this)
-  cases hr : (update s hint).2 with
-  | none => exact hgc _ ⟨up, uc, ul, ug⟩
-  | some l =>
-    simp only
-    split
-    · exact hgc _ ⟨up, uc, ul, ug⟩
-    · exact hgc _ ⟨up, uc, hlib l hr, ug⟩
+  have := connectStep_AllP P ls b hint bps h hb
+  unfold updLIB at this
+  exact this
 
 /-- **lib_monotone.** Along EVERY history of stores, Updates (connect and rollback branch, any blocks, any Confirms values,
 any producer set), connects and swaps on a node whose Status has loaded its finality status, the LIB number the Status holds
@@ -475,8 +417,7 @@ example : ((newNode "p0" ps4).run main8).done = true ∧ (∀ op ∈ reorg9, op 
 
 /-- **restart_equal_partial.** After a restart the first Update works on: the saved LIB, the saved lpbNo, the saved
 proposed map overwritten by what the replay of the stored blocks `begRecoBlockNo..best` yields (entries with a pre-LIB
-number > 0), and the replayed window. The window is NOT the window the node had (`restart_equal_false`); for ≥ 5 producers
-the replay also counts differently (`reload_quorum_not_two_thirds`). -/
+number > 0), and the replayed window. Field by field and over all histories: `restart_exact`. -/
 theorem restart_equal_partial (n : Node) (p : List (String × PL)) (lib : BI) (lpb : Nat)
     (h : n.saved = some (p, lib, lpb)) :
     let ls := (statusLoad (restart n)).ls
@@ -614,22 +555,529 @@ example : ∃ (T : BlockTree Nat (Fin 4)), (∀ p, T.RangesDisjoint p) ∧ (∀ 
     · exact ⟨5, rfl, by omega, by omega, by omega⟩
     · exact ⟨6, rfl, by omega, by omega, by omega⟩
 
+/-! ## 7. `calcLIB` is an order statistic of the pre-LIB map -/
+
+/-- **calcLIB_order_statistic.** For a proposed map with `m ≥ 1` entries (one per producer SEEN so far:
+`prpsd_one_entry_per_producer`) the block number `calcLIB` selects is the number at index `(m−1)/3` of the entries sorted by
+pre-LIB number — in EVERY sorted permutation of the entries, i.e. whatever order the Go map iteration delivers and whatever
+the unstable `sort.Slice` does with equal keys. Hence at most `(m−1)/3` entries lie below it, and at least
+`m − (m−1)/3 = ⌊2m/3⌋ + 1 = confirmsRequired m` of the `m` entries have a pre-LIB number at or above it: a quorum of the
+producers seen so far vouches for the selected LIB, for every `m`. -/
+theorem calcLIB_order_statistic (prpsd : List (String × PL)) (hne : prpsd ≠ []) :
+    ∃ n, calcLIBNo prpsd = some n ∧
+      (∀ s : List PL, s.Perm (prpsd.map (·.2)) → SortedPL s →
+          ∃ p, s[(prpsd.length - 1) / 3]? = some p ∧ p.plib.no = n) ∧
+      cntLt n (prpsd.map (·.2)) ≤ (prpsd.length - 1) / 3 ∧
+      prpsd.length - (prpsd.length - 1) / 3 ≤ cntGe n (prpsd.map (·.2)) ∧
+      prpsd.length - (prpsd.length - 1) / 3 = prpsd.length * 2 / 3 + 1 ∧
+      confirmsRequired prpsd.length ≤ cntGe n (prpsd.map (·.2)) := by
+  obtain ⟨p, _, hp, hst, hge⟩ := calcLIBNo_spec prpsd hne
+  have hlen : 0 < prpsd.length := List.length_pos_iff.mpr hne
+  rw [libIndex_eq] at hst hge
+  refine ⟨p.plib.no, hp, ?_, hst.1, by omega, by omega, by rw [confirmsRequired_eq]; omega⟩
+  intro s hperm hsorted
+  have hi : (prpsd.length - 1) / 3 < s.length := by rw [hperm.length_eq]; simp; omega
+  refine ⟨s[(prpsd.length - 1) / 3], List.getElem?_eq_getElem hi, ?_⟩
+  obtain ⟨r1, r2, _⟩ := sorted_stat s _ _ hsorted (List.getElem?_eq_getElem hi)
+  exact IsStat_unique ((IsStat_perm hperm _ _).mp ⟨r1, r2⟩) hst
+
+/-- non-vacuity (evaluation of one case — a test): five entries numbered 7 3 9 3 5, index (5−1)/3 = 1 → number 3; four of
+the five entries are at or above it. -/
+example :
+    let e (k : String) (no : Nat) : String × PL := (k, ⟨⟨k, no, 1⟩, ⟨k, no, 1⟩⟩)
+    let m := [e "a" 7, e "b" 3, e "c" 9, e "d" 3, e "e" 5]
+    calcLIBNo m = some 3 ∧ cntGe 3 (m.map (·.2)) = 5 ∧ cntLt 3 (m.map (·.2)) = 0 ∧ confirmsRequired 5 = 4 := by decide
+
+/-- **calcLIB_order_independent.** The selected NUMBER and the SET of blocks `calcLIB` may return depend only on the
+multiset of entries, not on the order in which the map delivers them: two runs over the same map, whatever their iteration
+orders and hints, return blocks with the same number. -/
+theorem calcLIB_order_independent (p1 p2 : List (String × PL)) (h : p1.Perm p2) :
+    calcLIBNo p1 = calcLIBNo p2 ∧ (∀ b, b ∈ calcLIBCands p1 ↔ b ∈ calcLIBCands p2) ∧
+      ∀ h1 h2 l1 l2, calcLIB p1 h1 = some l1 → calcLIB p2 h2 = some l2 → l1.no = l2.no := by
+  refine ⟨calcLIBNo_perm h, calcLIBCands_perm h, ?_⟩
+  intro h1 h2 l1 l2 e1 e2
+  obtain ⟨_, _, _, n1⟩ := mem_calcLIBCands.mp (calcLIB_some_iff p1 h1 l1 e1)
+  obtain ⟨_, _, _, n2⟩ := mem_calcLIBCands.mp (calcLIB_some_iff p2 h2 l2 e2)
+  rw [calcLIBNo_perm h, n2] at n1
+  exact (Option.some.inj n1).symm
+
+/-- **calcLIB_choice_exact.** What MAY depend on the iteration order / the unstable sort: which of the entries carrying the
+selected number is returned. The blocks that can sit at index `(m−1)/3` of a sorted permutation of the entries are exactly the
+model's candidates `calcLIBCands` (all pre-LIBs with the selected number); the model's `calcLIB` always answers with one of
+them, whatever the hint. -/
+theorem calcLIB_choice_exact (prpsd : List (String × PL)) (hne : prpsd ≠ []) (b : BI) :
+    (b ∈ calcLIBCands prpsd ↔
+      ∃ s : List PL, s.Perm (prpsd.map (·.2)) ∧ SortedPL s ∧ (s[(prpsd.length - 1) / 3]?).map (·.plib) = some b) ∧
+    ∀ hint, ∃ l ∈ calcLIBCands prpsd, calcLIB prpsd hint = some l := by
+  obtain ⟨n, hn, hall, _⟩ := calcLIB_order_statistic prpsd hne
+  refine ⟨⟨?_, ?_⟩, ?_⟩
+  · intro hb
+    obtain ⟨kv, hkv, e, hno⟩ := mem_calcLIBCands.mp hb
+    obtain ⟨p, hp, hpn⟩ := hall (sortPL (prpsd.map (·.2))) (sortPL_perm _) (sortPL_sorted _)
+    have hnb : kv.2.plib.no = p.plib.no := by
+      rw [hn] at hno
+      rw [e, hpn]; exact (Option.some.inj hno).symm
+    obtain ⟨s', h1, h2, h3⟩ := cand_realisable (prpsd.map (·.2)) _ (sortPL_sorted _) (sortPL_perm _) _ p kv.2 hp
+      (List.mem_map.mpr ⟨kv, hkv, rfl⟩) hnb
+    exact ⟨s', h2, h1, by rw [h3]; simp [e]⟩
+  · rintro ⟨s, hperm, hsorted, hb⟩
+    obtain ⟨p, hp, hpn⟩ := hall s hperm hsorted
+    rw [hp] at hb
+    simp only [Option.map_some, Option.some.injEq] at hb
+    have hm : p ∈ prpsd.map (·.2) := hperm.mem_iff.mp (List.mem_of_getElem? hp)
+    obtain ⟨kv, hkv, e⟩ := List.mem_map.mp hm
+    exact mem_calcLIBCands.mpr ⟨kv, hkv, by rw [e]; exact hb, by rw [hn, ← hb, hpn]⟩
+  · intro hint
+    obtain ⟨l, hl⟩ := calcLIB_isSome prpsd hint hne
+    exact ⟨l, calcLIB_some_iff prpsd hint l hl, hl⟩
+
+/-- **calcLIB_hash_determined.** If no two entries carry the same number with different block ids (as when every pre-LIB
+lies on one chain: `lib_on_chain_history`), the returned block is the same block in every run. Two entries with equal numbers on
+DIFFERENT branches (possible after a reorganisation: the known stale-entry finding) are the only source of a run-dependent
+LIB hash — see the example below. -/
+theorem calcLIB_hash_determined (prpsd : List (String × PL)) (h1 h2 : String) (l1 l2 : BI)
+    (huniq : ∀ kv ∈ prpsd, ∀ kv' ∈ prpsd, kv.2.plib.no = kv'.2.plib.no → kv.2.plib.hash = kv'.2.plib.hash)
+    (e1 : calcLIB prpsd h1 = some l1) (e2 : calcLIB prpsd h2 = some l2) : l1.no = l2.no ∧ l1.hash = l2.hash := by
+  obtain ⟨kv1, m1, k1, n1⟩ := mem_calcLIBCands.mp (calcLIB_some_iff prpsd h1 l1 e1)
+  obtain ⟨kv2, m2, k2, n2⟩ := mem_calcLIBCands.mp (calcLIB_some_iff prpsd h2 l2 e2)
+  have hno : l1.no = l2.no := by rw [n1] at n2; exact Option.some.inj n2
+  refine ⟨hno, ?_⟩
+  have := huniq kv1 m1 kv2 m2 (by rw [k1, k2]; exact hno)
+  rw [k1, k2] at this; exact this
+
+/-- the run-dependent case (evaluation — a test): two producers' pre-LIBs numbered 1 on different branches; both are candidates
+and the hint (= what the real run picked) decides. -/
+example :
+    let m : List (String × PL) := [("p0", ⟨⟨"x", 1, 1⟩, ⟨"x2", 2, 1⟩⟩), ("p1", ⟨⟨"y", 1, 1⟩, ⟨"y2", 2, 1⟩⟩)]
+    calcLIB m "x" = some ⟨"x", 1, 1⟩ ∧ calcLIB m "y" = some ⟨"y", 1, 1⟩ := by decide
+
+/-- **calcLIB_monotone_in_entries.** Order-statistic monotonicity: when the entry of a producer ALREADY in the map is replaced
+by one with a pre-LIB number at least as high (what `update` does at that producer's next pre-LIB on a growing chain), the
+selected number does not decrease. (A producer's FIRST entry lengthens the list and can lower the selection — the repaired
+class C08-lib-decreases-when-producer-first-seen; `updateLIB`'s guard, `lib_monotone`, covers that case.) -/
+theorem calcLIB_monotone_in_entries (prpsd : List (String × PL)) (k : String) (v old : PL) (a b : Nat)
+    (hl : lookup k prpsd = some old) (hle : old.plib.no ≤ v.plib.no)
+    (ha : calcLIBNo prpsd = some a) (hb : calcLIBNo (setP k v prpsd) = some b) : a ≤ b :=
+  calcLIBNo_setP_mono prpsd k v old a b hl hle ha hb
+
+example :
+    let e (k : String) (no : Nat) : String × PL := (k, ⟨⟨k, no, 1⟩, ⟨k, no, 1⟩⟩)
+    let m := [e "a" 7, e "b" 3, e "c" 9, e "d" 3]
+    lookup "b" m = some (e "b" 3).2 ∧ calcLIBNo m = some 3 ∧ calcLIBNo (setP "b" (e "b" 8).2 m) = some 7 := by decide
+
+/-- **lib_vouched_by_seen_quorum.** Whenever `update()` returns a LIB candidate `l` (the only way `Status.Update` moves the
+LIB), `l` is the pre-LIB of an entry of the map and at least `confirmsRequired m` of the map's `m` entries — pairwise
+different producers — have a pre-LIB number at or above `l.no`. -/
+theorem lib_vouched_by_seen_quorum (ls : LS) (hint : String) (l : BI) (h : (update ls hint).2 = some l) :
+    (∃ kv ∈ (update ls hint).1.prpsd, kv.2.plib = l) ∧
+      confirmsRequired (update ls hint).1.prpsd.length ≤ cntGe l.no ((update ls hint).1.prpsd.map (·.2)) := by
+  have key : ∀ prpsd : List (String × PL), calcLIB prpsd hint = some l →
+      (∃ kv ∈ prpsd, kv.2.plib = l) ∧ confirmsRequired prpsd.length ≤ cntGe l.no (prpsd.map (·.2)) := by
+    intro prpsd hc
+    obtain ⟨kv, m, e, hno⟩ := mem_calcLIBCands.mp (calcLIB_some_iff prpsd hint l hc)
+    have hne : prpsd ≠ [] := by intro e0; subst e0; cases m
+    obtain ⟨n, hn, _, _, _, _, hq⟩ := calcLIB_order_statistic prpsd hne
+    rw [hn] at hno
+    rw [← Option.some.inj hno]
+    exact ⟨⟨kv, m, e⟩, hq⟩
+  unfold update at h ⊢
+  split at h
+  · simp at h
+  · rename_i last rest hc
+    simp only at h ⊢
+    split at h
+    · simp at h
+    · rename_i confirmed hw
+      simp only [hw]
+      exact key _ h
+
+/-- **prpsd_one_entry_per_producer.** Along EVERY history (any operations, any order) the proposed map of the Status, of the boot
+loader and of the saved image has one entry per producer: the `m` entries of `calcLIB_order_statistic` are `m` different
+producers. -/
+theorem prpsd_one_entry_per_producer (self : String) (gbps : List String) (ops : List Op) :
+    let n := (newNode self gbps).run ops
+    (n.ls.prpsd.map (·.1)).Nodup ∧ (n.bl.prpsd.map (·.1)).Nodup := by
+  have := run_KeysInv ops (newNode_KeysInv self gbps)
+  exact ⟨this.1, this.2.1⟩
+
+/-! ## 8. LIB on the main chain: an invariant of histories without reorganisation -/
+
+/-- **lib_on_chain_step** (sharpens `lib_on_chain_partial`: the predicate is now the concrete "the number index maps the
+block's number to the block", and the guard is exactly "no block the finality status refers to — pre-LIB entry, window element,
+LIB; in the Status, the boot loader, the saved image — is off the main chain, except the block passed to Update and not yet
+connected"). The guard `ChainInv` is preserved by EVERY operation of a chain service that extends its main chain (`Linear`:
+stores, Update of a stored child of the tip on the connect branch, connect of the block just Updated, restart anywhere). So only
+the rollback branch / swapChainMapping can break it (`lib_on_chain_false`, known finding). -/
+theorem lib_on_chain_step (n : Node) (op : Op) (h : ChainInv n) (hl : Linear n op) : ChainInv (n.apply op) :=
+  apply_ChainInv op h hl
+
+/-- **lib_on_chain_history.** For EVERY history without reorganisation (every operation enabled in the sense of `Linear`,
+restarts included, any producers, any Confirms values, any length): whenever the Status is in step with the chain DB (its best
+block is the indexed tip) the LIB it holds is on the main chain (or is still the zero value of a fresh status), and so is the
+pre-LIB of every entry of the proposed map; between `Update(b)` and `connectToChain(b)` the only other possibility is `b` itself. -/
+theorem lib_on_chain_history (self : String) (gbps : List String) (ops : List Op)
+    (hl : LinearHist (newNode self gbps) ops) :
+    let n := (newNode self gbps).run ops
+    ChainInv n ∧
+    (n.done = true → hashByNo n n.latest = some n.best →
+        (n.ls.lib = zeroBI ∨ OnChain n n.ls.lib) ∧ ∀ kv ∈ n.ls.prpsd, kv.2.plib = zeroBI ∨ OnChain n kv.2.plib) ∧
+    (n.ls.lib = zeroBI ∨ OnChain n n.ls.lib ∨ (n.ls.lib.hash = n.best ∧ n.ls.lib.no = n.latest + 1)) := by
+  have hinv := run_ChainInv ops (newNode_ChainInv self gbps) hl
+  refine ⟨hinv, ?_, ?_⟩
+  · intro hd ht
+    have := Synced_of_tip hinv hd ht
+    exact ⟨this.2.2.1, this.1⟩
+  · rcases hinv.st with s | ⟨_, b, hb, hno, _, ha⟩
+    · rcases s.2.2.2.2.1 with e | e
+      · exact Or.inl e
+      · exact Or.inr (Or.inl e)
+    · rcases ha.2.2.1 with (e | e) | e
+      · exact Or.inl e
+      · exact Or.inr (Or.inl e)
+      · refine Or.inr (Or.inr ?_)
+        rw [e, hb]
+        exact ⟨rfl, hno⟩
+
+/-- the hypotheses are satisfiable on a non-trivial history (evaluation of `Linear` along eight main-chain blocks and a restart:
+a test), and there the LIB b4 is on the chain. -/
+example : ∃ ops, LinearHist (newNode "p0" ["p0", "p1", "p2", "p3"]) ops ∧
+    ((newNode "p0" ["p0", "p1", "p2", "p3"]).run ops).ls.lib.no = 4 ∧
+    OnChain ((newNode "p0" ["p0", "p1", "p2", "p3"]).run ops) ((newNode "p0" ["p0", "p1", "p2", "p3"]).run ops).ls.lib := by
+  let mk (id : String) (no : Nat) (prev bp : String) (c : Nat) : Blk := ⟨id, no, prev, bp, c⟩
+  let bs := [mk "b1" 1 "g" "p0" 1, mk "b2" 2 "b1" "p1" 2, mk "b3" 3 "b2" "p2" 3, mk "b4" 4 "b3" "p3" 4,
+    mk "b5" 5 "b4" "p0" 4, mk "b6" 6 "b5" "p1" 4, mk "b7" 7 "b6" "p2" 4, mk "b8" 8 "b7" "p3" 4]
+  refine ⟨(bs.take 5).flatMap (fun b => [.blk b, .update b "", .connect b]) ++ [.restart] ++
+    (bs.drop 5).flatMap (fun b => [.blk b, .update b "", .connect b]), ?_, ?_, ?_⟩
+  · decide +kernel
+  · decide +kernel
+  · unfold OnChain; decide +kernel
+
+/-- **rollback_branch_localised.** What the rollback branch of `Status.Update` does to the three components: the LIB is kept;
+the window is rebuilt from the number index only; a proposed entry is either taken from the number index or is an entry the
+status had BEFORE (unchanged). So after a reorganisation the only references that can point off the new main chain are kept
+entries of the proposed map — exactly the known finding C08-lib-from-stale-entry-of-abandoned-branch. -/
+theorem rollback_branch_localised (n : Node) (b : Blk) (hint : String) (hb : ChainBase n)
+    (hr : (statusLoad n).best ≠ b.prev) :
+    (statusUpdate n b hint).ls.lib = (statusLoad n).ls.lib ∧
+    (∀ c ∈ (statusUpdate n b hint).ls.confirms, OC n c.bi) ∧
+    (∀ kv ∈ (statusUpdate n b hint).ls.prpsd, kv ∈ (statusLoad n).ls.prpsd ∨ OC n kv.2.plib) := by
+  have hm : ChainBase (statusLoad n) ∧ (statusLoad n).index = n.index := by
+    unfold statusLoad; split
+    · exact ⟨hb, rfl⟩
+    · exact ⟨ChainBase_of_eq hb rfl rfl rfl rfl, rfl⟩
+  unfold statusUpdate
+  simp only
+  generalize statusLoad n = m at hm hr ⊢
+  have hne : (m.best == b.prev) = false := by simp [hr]
+  simp only [hne, Bool.false_eq_true, if_false]
+  obtain ⟨l1, l2, l3, _⟩ := load_entries (OC m) m m.ls b.no (Or.inl rfl) (genesis_OC hm.1)
+    (fun i x hx => Or.inr (blockByNo_OnChain hm.1 hx))
+  have hoc : ∀ bi, OC m bi → OC n bi := fun bi h => (OC_congr hm.2 bi).mp h
+  refine ⟨by simp [gc, l3], ?_, ?_⟩
+  · intro c hc
+    have hc' : c ∈ (gc (load m m.ls b.no) m.gbps).confirms := hc
+    unfold gc at hc'
+    simp only at hc'
+    obtain ⟨tt, ht⟩ := dropOldLe_prefix (load m m.ls b.no).lib.no (load m m.ls b.no).confirms
+    have : c ∈ dropOldLe (load m m.ls b.no).lib.no (load m m.ls b.no).confirms := List.mem_of_mem_take hc'
+    exact hoc _ (l2 c (by rw [ht]; exact List.mem_append_left _ this))
+  · intro kv hkv
+    have hkv' : kv ∈ (gc (load m m.ls b.no) m.gbps).prpsd := hkv
+    unfold gc at hkv'
+    simp only at hkv'
+    have hmem : kv ∈ (load m m.ls b.no).prpsd := by
+      split at hkv'
+      · exact hkv'
+      · exact (List.mem_filter.mp hkv').1
+    rcases l1 kv hmem with h | h
+    · exact Or.inl h
+    · exact Or.inr (hoc _ h)
+
+/-! ## 9. Restart: what is restored and what is recomputed -/
+
+/-- **restart_exact** (replaces `restart_equal_false`, extends `restart_equal_partial`). For EVERY history of valid chain-service
+operations, if the process restarts in the state the history leads to, the finality status the first Update works on is, field
+by field:
+ * RESTORED from the image saved with the tip: `Lib` and `LpbNo`;
+ * CONSTANT for this node (equal to the fields of the status held before, whatever the history): `confirmsRequired`
+   (= ⌊2k/3⌋+1 for the genesis producer count k), genesis info, own producer id; the best block = the indexed tip;
+ * RECOMPUTED from the stored main chain: the confirms window is the window of the replay of blocks
+   `begRecoBlockNo .. latest` (empty when `latest = 0` or `begRecoBlockNo = latest`) — NOT the window held before
+   (example below); the proposed map is the saved map overwritten, producer by producer, by the entries the replay yields
+   with a pre-LIB number > 0: for every producer `k`, lookup k = the replayed entry if there is one numbered > 0, else
+   the saved entry (else none). -/
+theorem restart_exact (k : Nat) (self : String) (gbps : List String) (hg : gbps.length = k)
+    (ops : List Op) (hv : ∀ op ∈ ops, op.Valid) (p : List (String × PL)) (lib : BI) (lpb : Nat) :
+    let n := (newNode self gbps).run ops
+    n.saved = some (p, lib, lpb) →
+    let r := (statusLoad (restart n)).ls
+    let replayed := loadPlibStatus n (begRecoBlockNo (confirmsRequired k) lib.no n.latest) n.latest (confirmsRequired k)
+    (r.lib = lib ∧ r.lpb = lpb) ∧
+    (r.cr = confirmsRequired k ∧ n.ls.cr = confirmsRequired k ∧ r.genesis = n.ls.genesis ∧ r.self = n.ls.self ∧
+      (statusLoad (restart n)).best = (hashByNo n n.latest).getD "") ∧
+    ((n.latest = 0 ∨ replayed = none) → r.prpsd = p ∧ r.confirms = []) ∧
+    (∀ t, n.latest ≠ 0 → replayed = some t →
+        r.confirms = t.confirms ∧
+        ∀ key, lookup key r.prpsd =
+          match lookup key t.prpsd with
+          | some v => if v.plib.no > 0 then some v else lookup key p
+          | none => lookup key p) := by
+  intro n hs r replayed
+  have hinv : NodeInv k n := window_invariant_history k self gbps hg ops hv
+  obtain ⟨hid, hgen, hself, hgb⟩ := run_IdInv ops (newNode_IdInv self gbps)
+  have hgb' : n.gbps.length = k := hinv.gb
+  have hd : (restart n).done = false := by simp [restart]
+  have hr : r = load n { newLSWithConfirms n.genesis n.self (confirmsRequired k) with prpsd := p, lib := lib, lpb := lpb } n.latest := by
+    show (statusLoad (restart n)).ls = _
+    simp [statusLoad, hd, restart, hs, newLS, hgb']
+  have hbest : (statusLoad (restart n)).best = (hashByNo n n.latest).getD "" := by
+    simp [statusLoad, hd, restart]
+  obtain ⟨e1, e2, e3, e4, e5, e6, e7⟩ := load_exact n
+    { newLSWithConfirms n.genesis n.self (confirmsRequired k) with prpsd := p, lib := lib, lpb := lpb } n.latest
+  rw [← hr] at e1 e2 e3 e4 e5 e6 e7
+  refine ⟨⟨e1, e2⟩, ⟨e3, hinv.lsCr, ?_, ?_, hbest⟩, e6, e7⟩
+  · rw [e4]; exact hid.1.symm
+  · rw [e5]; exact hid.2.1.symm
+
+/-! ## 10. What an honest producer guarantees — and what it does not -/
+
+namespace BlockTree
+variable {B P : Type} (T : BlockTree B P)
+
+/-- **honest_no_double_confirm.** A producer with pairwise disjoint confirm ranges never confirms two different blocks of the
+same height, on whatever branches. -/
+theorem honest_no_double_confirm (p : P) (h : T.RangesDisjoint p) (b b' x y : B)
+    (hb : T.prod b = p) (hb' : T.prod b' = p) (cx : T.confirms b x) (cy : T.confirms b' y)
+    (hh : T.height x = T.height y) : x = y := by
+  by_cases e : b = b'
+  · subst e; exact T.anc_unique x y b cx.1 cy.1 hh
+  · rcases h b b' hb hb' e with h | h
+    · have := cx.2.2; have := cy.2.1; omega
+    · have := cy.2.2; have := cx.2.1; omega
+
+/-- **ranges_disjoint_of_production_order.** If the blocks of `p` can be listed in production order such that each one's range
+starts at or above the previous ones' heights (what the block factory does: `factory_ranges_disjoint`), `RangesDisjoint p`
+holds. -/
+theorem ranges_disjoint_of_production_order (p : P) (bs : List B) (hall : ∀ b, T.prod b = p → b ∈ bs)
+    (hord : bs.Pairwise (fun b b' => T.height b ≤ T.lo b')) : T.RangesDisjoint p := by
+  intro b b' hb hb' hne
+  have m1 := hall b hb
+  have m2 := hall b' hb'
+  -- pairwise over a list: one of the two orders
+  have : ∀ (l : List B), l.Pairwise (fun b b' => T.height b ≤ T.lo b') → b ∈ l → b' ∈ l →
+      T.height b ≤ T.lo b' ∨ T.height b' ≤ T.lo b := by
+    intro l hl
+    induction l with
+    | nil => intro h; cases h
+    | cons a t ih =>
+      obtain ⟨h1, h2⟩ := List.pairwise_cons.mp hl
+      intro ha hb2
+      rcases List.mem_cons.mp ha with e1 | ha'
+      · rcases List.mem_cons.mp hb2 with e2 | hb2'
+        · exact absurd (e1.trans e2.symm) hne
+        · rw [e1]; exact Or.inl (h1 _ hb2')
+      · rcases List.mem_cons.mp hb2 with e2 | hb2'
+        · rw [e2]; exact Or.inr (h1 _ ha')
+        · exact ih h2 ha' hb2'
+  exact this bs hord m1 m2
+
+end BlockTree
+
+/-- One run of the block factory worker (blockfactory.go:185-220), blocks oldest first: the worker's `lpbNo` starts at `lpb`
+(`bsLoader.lpbNo()`), each block is numbered above it (it is built on the current best block, and the tip number never decreases:
+`tip_never_decreases`), carries `Confirms = no − lpbNo`, and after a successful `ConnectBlock` the worker sets `lpbNo := no`. -/
+def FactoryRun : Nat → List Blk → Prop
+  | _, [] => True
+  | lpb, b :: rest => lpb < b.no ∧ b.confirms = honestConfirms b.no lpb ∧ FactoryRun b.no rest
+
+/-- **factory_ranges_disjoint.** Within one process run the confirm ranges of a producer's successive blocks are pairwise
+disjoint, on whatever branches the blocks lie: each later range starts above every earlier block of the run. (Across a
+restart the worker starts from the SAVED `LpbNo`, which roll-forward over an older own block can have lowered:
+`lpb_regress_witness`.) -/
+theorem factory_ranges_disjoint : ∀ (lpb : Nat) (bs : List Blk), FactoryRun lpb bs → (∀ b ∈ bs, b.no < u64) →
+    (∀ b ∈ bs, lpb < rangeMin b.bi ∧ lpb < b.no) ∧
+    bs.Pairwise (fun b1 b2 => b1.no < rangeMin b2.bi ∧ ∀ k, ¬ (inRange b1.bi k = true ∧ inRange b2.bi k = true))
+  | _, [], _, _ => ⟨by simp, List.Pairwise.nil⟩
+  | lpb, b :: rest, h, hu => by
+    obtain ⟨h1, h2, h3⟩ := h
+    have hbi : b.bi = ⟨b.id, b.no, honestConfirms b.no lpb⟩ := by simp [Blk.bi, h2]
+    obtain ⟨r1, r2⟩ := honest_range b.id b.no lpb h1 (hu b (by simp))
+    rw [← hbi] at r1 r2
+    obtain ⟨ih1, ih2⟩ := factory_ranges_disjoint b.no rest h3 (fun x hx => hu x (by simp [hx]))
+    refine ⟨?_, List.pairwise_cons.mpr ⟨?_, ih2⟩⟩
+    · intro x hx
+      rcases List.mem_cons.mp hx with rfl | hx
+      · exact ⟨by omega, h1⟩
+      · have := ih1 x hx; omega
+    · intro x hx
+      have := ih1 x hx
+      refine ⟨this.1, ?_⟩
+      intro k ⟨k1, k2⟩
+      have := (r2 k).mp k1
+      simp only [inRange, Bool.and_eq_true, decide_eq_true_eq] at k2
+      omega
+
+example : FactoryRun 0 [⟨"b1", 1, "g", "p0", 1⟩, ⟨"b5", 5, "b4", "p0", 4⟩, ⟨"c9", 9, "c8", "p0", 4⟩] := by
+  simp only [FactoryRun]; decide
+
+/-- a history in which every operation is enabled in the state it is applied to. -/
+def HistOf (P : Node → Op → Prop) : Node → List Op → Prop
+  | _, [] => True
+  | n, op :: rest => P n op ∧ HistOf P (n.apply op) rest
+
+/-- `connectToChain` is called with a block numbered above the current tip (the chain service connects the child of the tip). -/
+def ConnectsAbove (n : Node) : Op → Prop
+  | .connect b => n.latest < b.no
+  | _ => True
+
+/-- **tip_never_decreases.** The main chain's tip number never decreases: connects go above the tip, `swapChainMapping` refuses
+a branch whose top is not above it, nothing else touches it (restarts included). So a block built on the current best block is
+numbered above every block this process connected before. -/
+theorem tip_never_decreases : ∀ (ops : List Op) (n : Node), HistOf ConnectsAbove n ops → n.latest ≤ (n.run ops).latest
+  | [], _, _ => Nat.le_refl _
+  | op :: rest, n, h => by
+    have hstep : n.latest ≤ (n.apply op).latest := by
+      cases op with
+      | blk b => simp only [Node.apply]; split <;> exact Nat.le_refl _
+      | update b hint =>
+        simp only [Node.apply, statusUpdate, statusLoad]
+        split <;> split <;> (try split) <;> exact Nat.le_refl _
+      | connect b => exact Nat.le_of_lt h.1
+      | swap bs =>
+        simp only [Node.apply, swap]
+        cases bs with
+        | nil => exact Nat.le_refl _
+        | cons t r => simp only; split <;> (simp only; omega)
+      | restart => exact Nat.le_refl _
+    exact Nat.le_trans hstep (tip_never_decreases rest _ h.2)
+
+section witnesses2
+/-! Two-node witnesses (each `decide +kernel` EVALUATES the model on concrete histories — tests of the model, confirmed on
+the real code by harness c08 part A6). Producers p0..p3, cr = 3. -/
+
+private def mk' (id : String) (no : Nat) (prev bp : String) (c : Nat) : Blk := ⟨id, no, prev, bp, c⟩
+private def mainBlk' (b : Blk) : List Op := [.blk b, .update b "", .connect b]
+private def q4 : List String := ["p0", "p1", "p2", "p3"]
+
+/-- every producer's Confirms value is `no − (number of its previous block in the list)`, and its numbers increase: the
+blocks are what honest block factories produce (no equivocation: a producer's next block is numbered above its previous one). -/
+private def confirmsHonest (bs : List Blk) : Bool :=
+  (bs.foldl (fun (acc : Bool × List (String × Nat)) b =>
+    let lpb := ((acc.2.find? (·.1 == b.bp)).map (·.2)).getD 0
+    (acc.1 && decide (lpb < b.no) && decide (b.confirms = honestConfirms b.no lpb), (b.bp, b.no) :: acc.2)) (true, [])).1
+
+-- two connected rounds
+private def h1 := mk' "b1" 1 "g" "p0" 1
+private def h2 := mk' "b2" 2 "b1" "p1" 2
+private def h3 := mk' "b3" 3 "b2" "p2" 3
+private def h4 := mk' "b4" 4 "b3" "p3" 4
+private def h5 := mk' "b5" 5 "b4" "p0" 4
+private def h6 := mk' "b6" 6 "b5" "p1" 4
+private def h7 := mk' "b7" 7 "b6" "p2" 4
+private def h8 := mk' "b8" 8 "b7" "p3" 4
+private def common8 : List Blk := [h1, h2, h3, h4, h5, h6, h7, h8]
+-- p3 is cut off; p0 p1 p2 continue (branch β)
+private def h9 := mk' "b9" 9 "b8" "p0" 4
+private def h10 := mk' "b10" 10 "b9" "p1" 4
+private def h11 := mk' "b11" 11 "b10" "p2" 4
+private def h12 := mk' "b12" 12 "b11" "p0" 3
+private def h13 := mk' "b13" 13 "b12" "p1" 3     -- seen by p1 only
+-- p3 alone (branch γ), p0 and p2 miss their slots meanwhile
+private def g9 := mk' "c9" 9 "b8" "p3" 1
+private def g10 := mk' "c10" 10 "c9" "p3" 1
+private def g11 := mk' "c11" 11 "c10" "p3" 1
+private def g12 := mk' "c12" 12 "c11" "p3" 1
+private def g13 := mk' "c13" 13 "c12" "p3" 1
+-- p0, p2, p3 reconnected (p1 still cut off)
+private def g14 := mk' "c14" 14 "c13" "p0" 2
+private def g15 := mk' "c15" 15 "c14" "p2" 4
+private def g16 := mk' "c16" 16 "c15" "p3" 3
+private def g17 := mk' "c17" 17 "c16" "p0" 3
+private def g18 := mk' "c18" 18 "c17" "p2" 3
+private def g19 := mk' "c19" 19 "c18" "p3" 3
+/-- p0's chain service adopts γ: gather, NeedReorganization(8), rollback = Update(b8), roll forward, swap. -/
+private def reorgG : List Op :=
+  [.blk g9, .blk g10, .blk g11, .blk g12, .blk g13, .update h8 "", .update g9 "", .update g10 "", .update g11 "",
+   .update g12 "", .update g13 "", .swap [g13, g12, g11, g10, g9]]
+
+/-- **agreement_false_honest_witness** (candidate finding C08-conflicting-libs-honest-switch-below-confirmed; confirmed on the
+real `dpos.Status` by harness c08 part A6). The two-node clause is FALSE although NO producer misbehaves: all Confirms values
+are `no − lpbNo`, nobody equivocates, nobody restarts, no stale entry is involved. p1's node (sees b1..b13) reports LIB b9.
+p0's node saw b1..b12: its LIB is b8, so the branch c9..c13 (longer, root b8 = its LIB) passes both vetoes and is adopted;
+with c14..c19 by p0, p2, p3 it reports LIB c13, c14, c15 — while b9 ≠ c9 at height 9. On each node alone the LIB is monotone
+and on its own main chain. A producer protects only its own LIB: of the quorum whose pre-LIBs make b9 irreversible only the
+last member (p1) knows it; p0 and p2, having confirmed b9..b12, may still abandon them. Hence `StaysOnConfirmed`, the extra
+hypothesis of `agreement_partial`, does NOT hold for honest producers and cannot be derived from the node-local theorems. -/
+theorem agreement_false_honest_witness :
+    let nodeP1 := (newNode "p1" q4).run ((common8 ++ [h9, h10, h11, h12, h13]).flatMap mainBlk')
+    let p0a := (newNode "p0" q4).run ((common8 ++ [h9, h10, h11, h12]).flatMap mainBlk')
+    let nodeP0 := p0a.run (reorgG ++ [g14, g15, g16, g17, g18, g19].flatMap mainBlk')
+    -- all blocks are what honest block factories produce
+    confirmsHonest (common8 ++ [h9, h10, h11, h12, h13, g9, g10, g11, g12, g13, g14, g15, g16, g17, g18, g19]) = true ∧
+    -- p1 holds b9
+    nodeP1.ls.lib.hash = "b9" ∧ hashByNo nodeP1 9 = some "b9" ∧
+    -- p0: LIB b8 when the other branch arrives; both vetoes let it through
+    p0a.ls.lib.hash = "b8" ∧ needReorg p0a 8 = true ∧ ([g9, g10, g11, g12, g13].all (verifyTs p0a)) = true ∧
+    -- p0 ends with LIB c15 on the other branch (its own LIB numbers went 8 → 13 → 14 → 15, always on its main chain)
+    nodeP0.ls.lib.hash = "c15" ∧ hashByNo nodeP0 15 = some "c15" ∧ hashByNo nodeP0 9 = some "c9" := by
+  decide +kernel
+
+-- libStatus.LpbNo moves backwards: fork root a1 (p1); p0 builds x2 on a1, adopts y2 y3 (p3), builds y4 (Confirms 4 − 2), then
+-- adopts the longer x3 x4 x5 (p1) on its own older block x2
+private def a1' := mk' "a1" 1 "g" "p1" 1
+private def x2 := mk' "x2" 2 "a1" "p0" 2
+private def y2 := mk' "y2" 2 "a1" "p3" 2
+private def y3 := mk' "y3" 3 "y2" "p3" 1
+private def y4 := mk' "y4" 4 "y3" "p0" 2
+private def x3 := mk' "x3" 3 "x2" "p1" 2
+private def x4 := mk' "x4" 4 "x3" "p1" 1
+private def x5 := mk' "x5" 5 "x4" "p1" 1
+private def lpbHist1 : List Op :=
+  mainBlk' a1' ++ mainBlk' x2 ++ [.blk y2, .blk y3, .update a1' "", .update y2 "", .update y3 "", .swap [y3, y2]] ++ mainBlk' y4
+private def lpbHist2 : List Op :=
+  [.blk x3, .blk x4, .blk x5, .update a1' "", .update x2 "", .update x3 "", .update x4 "", .update x5 "", .swap [x5, x4, x3, x2]]
+
+/-- **lpb_regress_witness** (observation, a test of the model; the `lpb` field is part of every compared status dump). `libStatus.LpbNo`
+is assigned at EVERY `addConfirmInfo` of an own block, also when roll-forward passes an OLDER own block: here it goes 4 → 2 when
+the node returns to the branch of its block x2 after having produced y4 on another branch (Confirms 2: heights 3, 4). The running
+block factory keeps its own variable, but after a restart it starts from the saved value 2: its next block x6 would carry
+Confirms 6 − 2 = 4 and confirm heights 3, 4 a second time, on the other branch — the `honest` hypothesis (`RangesDisjoint`) of
+`agreement_same_height` is then not met by a correct producer. -/
+theorem lpb_regress_witness :
+    let n1 := (newNode "p0" q4).run lpbHist1
+    let n2 := n1.run lpbHist2
+    n1.ls.lpb = 4 ∧ n2.ls.lpb = 2 ∧ (restart n2).bl.lpb = 2 ∧ n2.latest = 5 ∧
+      inRange ⟨"x6", 6, honestConfirms 6 (restart n2).bl.lpb⟩ 4 = true ∧ inRange y4.bi 4 = true := by
+  decide +kernel
+
+end witnesses2
+
 /-
-**agreement — the full statement, NOT proved.**
+**agreement — the full statement is FALSE for the pinned protocol, even with f = 0.**
 
   For all histories of n producers of which fewer than n/3 are Byzantine (equivocation; Confirms chain-locally honest),
   with arbitrary loss, delay, partition and restarts: if correct node A reports LIB x and correct node B reports LIB y,
   then x is an ancestor of y or y is an ancestor of x.
 
-What is proved towards it: `quorum_intersect`, `agreement_same_height` (no extra hypothesis) and `agreement_partial`, which
-needs H = `StaysOnConfirmed` — a rule the pinned code does not have: with the one-field pipelined confirmation a correct
-producer may confirm height h on branch β and later, after adopting a longer branch γ, heights h' > h on γ. Moreover the
-statement is about quorum-confirmed blocks (pre-LIBs established with `confirmsRequired n` confirmations); the LIB the
-pinned code REPORTS is a further selection (`calcLIB`) from a map that can contain stale entries of an abandoned branch
-(`lib_on_chain_false`), and after a restart the vetoes are off until the first Update (`restart_forgets_lib`), so the
-model's LIB does not satisfy all the node-local clauses the multi-node argument would start from.
-The harness explores the multi-node question on the real code (random schedules, and a bounded exhaustive exploration for
-n = 4, f = 1): that is search, it can only produce a counterexample or raise confidence.
+`agreement_false_honest_witness` (known finding C08-conflicting-libs-honest-switch-below-confirmed; harness c08 part A6 replays it
+on real `dpos.Status` objects): four honest producers, honest Confirms, no restart, no stale entry, one partition and a few
+missed slots — two correct nodes end with LIBs b9 and c15 on branches forking at b8. For n ≥ 7 partitions alone suffice (two
+cut-off producers build 2 blocks per round, isolated ones 1).
+
+What IS proved: `quorum_intersect`; `agreement_same_height` (no extra hypothesis: quorum-confirmed blocks of EQUAL height
+coincide); `agreement_partial`, conditional on H = `StaysOnConfirmed` — a rule the pinned code does not have and that honest
+producers do NOT satisfy (the witness: p0 confirms b9..b12 with its block b12 and later builds c14 on the other branch);
+`honest_no_double_confirm`, `ranges_disjoint_of_production_order`, `factory_ranges_disjoint`, `tip_never_decreases`: the
+`honest` hypothesis `RangesDisjoint` DOES follow from the block factory's `Confirms = no − lpbNo` within one process run
+(across a restart see `lpb_regress_witness`).
+
+What is missing for agreement is therefore not a proof but a protocol rule: a producer protects (vetoes reorganisations below)
+only its own LIB, and of the quorum of producers whose pre-LIBs make x irreversible only the LAST one knows it; the other
+q − 1 may still adopt a longer branch forking below x and, together with the producers that never saw x, make a conflicting
+block irreversible. A rule of the kind "never adopt a branch forking below a block for which you have seen a pre-LIB quorum"
+(lock on the pre-LIB, not on the LIB) — or equivalently H for pre-LIBs — would be needed; then `agreement_partial`'s argument
+applies to pre-LIBs, and the step from pre-LIBs to the reported LIB is `calcLIB_order_statistic` + `lib_on_chain_history`.
+Node-locally every clause still holds in the witness (LIB monotone, on the node's chain, never undone on that node).
 -/
 
 end Aergo.Props.C08
